@@ -228,6 +228,9 @@ def execute(case):
             fired = any(e.fault or e.op == "crash" for e in r.events) or any("SHORT" in e.raw for e in r.events)
             v.account(r, nontrivial=fired)
             if not fired:
+                if kind == "short":
+                    v.probe("short-write-not-applicable")  # a write of 0 or 1 bytes cannot be shortened
+                    continue
                 v.add("HARNESS:fault-did-not-fire", "plan %s did not fire (prefix not deterministic?)" % plan)
                 continue
             v.fired(kind)
